@@ -594,7 +594,7 @@ func (p *smtPrinter) str(t *Term) string {
 		for _, n := range strings.Split(t.Name, ",") {
 			bs = append(bs, "("+smtName(n)+" Int)")
 		}
-		s = "(" + t.Op + " (" + strings.Join(bs, " ") + ") " + p.str(t.Args[0]) + ")"
+		s = "(" + t.Op + " (" + strings.Join(bs, " ") + ") " + p.strLet(t.Args[0]) + ")"
 	case "neg":
 		s = "(- " + p.str(t.Args[0]) + ")"
 	default:
@@ -611,6 +611,60 @@ func (p *smtPrinter) str(t *Term) string {
 		return n
 	}
 	return s
+}
+
+// strLet prints a term (possibly containing bound variables) with `let` bindings for shared
+// subterms, so that DAG-shaped specification bodies are not expanded into trees.
+func (p *smtPrinter) strLet(t *Term) string {
+	refs := map[*Term]int{}
+	var order []*Term
+	var count func(t *Term)
+	count = func(n *Term) {
+		refs[n]++
+		if refs[n] > 1 {
+			return
+		}
+		if n.Op == "forall" || n.Op == "exists" {
+			// a nested binder is printed (with its own lets) when reached; nothing inside it is hoisted
+			order = append(order, n)
+			return
+		}
+		for _, a := range n.Args {
+			count(a)
+		}
+		order = append(order, n) // post-order
+	}
+	count(t)
+	names := map[*Term]string{}
+	saved := p.names
+	p.names = names
+	var binds []string
+	for _, n := range order {
+		if n == t || refs[n] < 2 || len(n.Args) == 0 || n.Op == "forall" || n.Op == "exists" {
+			continue
+		}
+		// printing n uses the names of already bound subterms
+		s := p.strNoShare(n)
+		nm := fmt.Sprintf("l!%d", n.id)
+		binds = append(binds, fmt.Sprintf("(let ((%s %s)) ", nm, s))
+		names[n] = nm
+	}
+	body := p.strNoShare(t)
+	p.names = saved
+	return strings.Join(binds, "") + body + strings.Repeat(")", len(binds))
+}
+
+// strNoShare prints without creating top-level define-funs (used under binders).
+func (p *smtPrinter) strNoShare(t *Term) string {
+	savedRefs := p.refs
+	p.refs = map[*Term]int{}
+	defer func() { p.refs = savedRefs }()
+	// temporarily hide t's own name so that its definition is printed
+	if nm, ok := p.names[t]; ok {
+		delete(p.names, t)
+		defer func() { p.names[t] = nm }()
+	}
+	return p.str(t)
 }
 
 // RenderVC prints hypotheses and the negated goal as a complete SMT-LIB script.
